@@ -597,6 +597,11 @@ func (g *Gen) condForm(depth int) (V, []V) {
 		}
 		return l, nil
 	case 18:
+		if g.r.Bool() {
+			// clause.NamedExpr given '?' arguments only (the scanner Joins uses)
+			c := g.col()
+			return V{T: "VNamedExpr", S: c + " IN (?) OR " + c + " NOT IN (?)", L: []V{g.list(0, true), g.list(0, true)}}, nil
+		}
 		t, src := g.namedTemplate()
 		if src.T == "VList" {
 			return V{T: "VNamedExpr", S: t, L: src.L}, nil
@@ -655,14 +660,17 @@ func (g *Gen) queryChain(depth int) []V {
 	for i := lib.Pick(g.r, []int{0, 1, 1, 2, 2, 3}); i > 0; i-- {
 		ch = append(ch, g.condCall(depth, true))
 	}
-	if g.r.Chance(1, 10) {
-		switch g.r.Intn(3) {
+	if g.r.Chance(1, 7) {
+		switch g.r.Intn(5) {
 		case 0:
 			ch = append(ch, V{T: "KJoins", S: "JOIN items AS j ON j.id = items.id AND j.name <> ?", L: []V{g.scalar()}})
 		case 1:
 			ch = append(ch, V{T: "KJoins", S: "LEFT JOIN (?) AS s ON s.id = items.id", L: []V{g.sub(depth-1, false)}})
-		default:
+		case 2:
 			ch = append(ch, V{T: "KJoins", S: "JOIN items j ON j.code = @c", L: []V{named("c", g.str())}})
+		default:
+			// Joins always builds through NamedExpr: slice expansion (incl. the empty slice) right after '('
+			ch = append(ch, V{T: "KJoins", S: "JOIN items AS j ON j.id = items.id AND j.age IN (?) AND j.code <> ?", L: []V{g.list(0, true), g.scalar()}})
 		}
 	}
 	if g.r.Chance(1, 8) {
@@ -746,6 +754,11 @@ var rawTemplates = []struct {
 }
 
 func (g *Gen) rawFin() Fin {
+	if g.r.Chance(1, 8) {
+		// text with '@' goes through NamedExpr even for '?' arguments (outside the domain: model = code only)
+		g.exec = false
+		return Fin{K: "raw", S: "SELECT * FROM items WHERE name <> 'a@b.c' AND id IN (?) AND code = ?", L: []V{g.list(0, true), g.scalar()}}
+	}
 	if g.r.Chance(1, 4) {
 		// named
 		ex := g.r.Bool()
